@@ -261,22 +261,41 @@ def emit(ty, v):
 
 def main():
     os.makedirs(OUT, exist_ok=True)
+    import json
     mods = {}
     errors = []
+    # which spec file feeds which generated module (remembered from the last run in which the spec was
+    # accepted): lets a refusal be attributed to the modules -- and hence the properties -- it concerns
+    owners_path = os.path.join(OUT, '.owners.json')
+    try:
+        owners = json.load(open(owners_path))
+    except Exception:
+        owners = {}
+    refused, stale, unknown = {}, set(), False
     for f in sorted(glob.glob(os.path.join(HERE, 'genspecs', '*.py'))):
-        spec = importlib.util.spec_from_file_location('genspec_' + os.path.basename(f)[:-3], f)
+        base = os.path.basename(f)
+        spec = importlib.util.spec_from_file_location('genspec_' + base[:-3], f)
         m = importlib.util.module_from_spec(spec)
         try:
             spec.loader.exec_module(m)
             res = m.specs(sys.modules[__name__])
-        except Refuse as e:
-            errors.append('%s: %s' % (os.path.basename(f), e))
+        except (Refuse, SyntaxError) as e:
+            msg = '%s: %s' % (base, e) if isinstance(e, Refuse) else '%s: source does not parse: %s' % (base, e)
+            errors.append(msg)
+            refused[base] = str(e)
+            mine = [mod for mod, gs in owners.items() if base in gs]
+            if mine:
+                stale.update(mine)
+            else:
+                unknown = True
             continue
-        except SyntaxError as e:
-            errors.append('%s: source does not parse: %s' % (os.path.basename(f), e))
-            continue
+        for mod, gs in owners.items():
+            if base in gs and mod not in res:
+                gs.remove(base)
         for mod, items in res.items():
             mods.setdefault(mod, []).extend(items)
+            if base not in owners.setdefault(mod, []):
+                owners[mod].append(base)
     for mod, items in mods.items():
         lines = ['(* GENERATED from %s by tools/py2v_data.py -- do not edit, never committed by hand. *)' % REPO,
                  'From Coq Require Import ZArith QArith String List.', 'Import ListNotations.', 'Open Scope Z_scope.', '']
@@ -285,6 +304,8 @@ def main():
                 lines.append('Definition %s : %s := %s.' % (name, ty.replace('(', '(').replace('list (', 'list ('), emit(ty, v)))
             except Refuse as e:
                 errors.append('%s.%s: %s' % (mod, name, e))
+                refused['%s.%s' % (mod, name)] = str(e)
+                stale.add(mod)
         text = '\n'.join(lines) + '\n'
         path = os.path.join(OUT, mod + '.v')
         if not (os.path.exists(path) and open(path).read() == text):
@@ -295,6 +316,12 @@ def main():
     py2v_fn.REPO = REPO
     nfm, nfn, ferrors = py2v_fn.translate_all()
     errors += ferrors
+    for e in ferrors:
+        refused['fn:' + e.split(' ', 1)[0]] = e
+        stale.add(e.split(' ', 1)[0])          # the message starts with the module name
+    json.dump(owners, open(owners_path, 'w'), indent=1, sort_keys=True)
+    json.dump({'refused': refused, 'stale_modules': sorted(stale), 'unattributed': unknown},
+              open(os.path.join(OUT, '.translator_status.json'), 'w'), indent=1)
     if errors:
         for e in errors:
             print('TRANSLATOR REFUSES: ' + e)
